@@ -200,6 +200,14 @@ def _is_leaf(x):
 def leaf(x):
   if x is None:
     return None
+  if isinstance(x, enum.Enum):
+    return {'enum': f'{type(x).__qualname__}.{x.name}'}
+  if type(x) not in (bool, int, float, complex, str, bytes) and isinstance(
+      x, (int, float, complex, str, bytes)):
+    # a subclass of a primitive: its type is part of the value
+    base = next(t for t in (bool, int, float, complex, str, bytes)
+                if isinstance(x, t))
+    return {'subclass': type(x).__qualname__, 'of': leaf(base(x))}
   if isinstance(x, bool):
     return x
   if isinstance(x, int):
